@@ -94,7 +94,18 @@ func (g *generator) walkSchemaRef(schemaRef *openapi3.SchemaRef) (ast.Type, erro
 		return ast.Type{}, fmt.Errorf("schema without a value")
 	}
 
-	return g.walkDefinitions(schemaRef.Value)
+	def, err := g.walkDefinitions(schemaRef.Value)
+	if err != nil {
+		return ast.Type{}, err
+	}
+
+	// `default` can be set on any kind of schema, not only on the ones whose
+	// walker reads it
+	if def.Default == nil && schemaRef.Value.Default != nil {
+		def.Default = schemaRef.Value.Default
+	}
+
+	return def, nil
 }
 
 func (g *generator) walkDefinitions(schema *openapi3.Schema) (ast.Type, error) {
